@@ -593,6 +593,6 @@ func TestStrategy(t *testing.T) {
 	glueStream(t, prop)
 	if prop == "C01" {
 		// the composed deploy path on a real Calcium (coq/Calcium/DeployPath.v)
-		deploypath.Stream(t, prop, 40, 600)
+		deploypath.Stream(t, prop, 30, 600)
 	}
 }
